@@ -38,6 +38,10 @@ CasesA == {[c |-> Corr(t, RefSets[((t + o + u) % 8) + 1], ((t + u) % 4) + 1, [co
 \* (A') thresholds with a fractional part, for the value aggregations
 CasesF == {[c |-> Corr(t, RefSets[r], 2, [count |-> 5, unit |-> 109], [Cond("basic", Ops[o], 2, TRUE, t = 7, <<>>) EXCEPT !.frac = TRUE], FALSE),
             B |-> BSeq[((t + o) % Len(BSeq)) + 1]] : t \in {5, 6, 7, 8}, o \in 1..6, r \in {1, 3}}
+\* (A'') a renaming conditioned on the log source (rule 1 is a windows rule, the others are not): aliases, no group-by,
+\*      no condition field - what is left is the renaming of the alias targets, rule by rule
+CasesW == {[c |-> Corr(t, RefSets[r], 4, [count |-> 5, unit |-> 109], Cond("basic", "gte", 2, FALSE, FALSE, <<>>), FALSE),
+            B |-> MkB("map", ty, TRUE, op, "rename_win")] : t \in {1, 3}, r \in {3, 5}, ty \in BOOLEAN, op \in BOOLEAN}
 \* (B) every backend template set x reference set x group-by variant
 CasesB == {[c |-> Corr(t, RefSets[r], gv, [count |-> 5, unit |-> 109], Cond("basic", "gte", 2, FALSE, FALSE, <<>>), gen), B |-> BSeq[b]] :
              t \in {1, 3}, r \in 1..8, gv \in 1..4, b \in 1..Len(BSeq), gen \in (IF Quick THEN {FALSE} ELSE BOOLEAN)}
@@ -52,7 +56,7 @@ RefsOf(a) == IF \E i \in 1..1 : a = CNot(CNot(CId(r1))) THEN <<1>>
              ELSE IF a = CBin("cor", CId(r4), CBin("cand", CNot(CId(r2)), CId(r1))) THEN <<4, 2, 1>> ELSE <<1, 2>>
 CasesC == {[c |-> Corr(t, RefsOf(a), 2, [count |-> 5, unit |-> 109], Cond("ext", "gte", 1, FALSE, FALSE, CPrint(a, st)), FALSE), B |-> BSeq[b]] :
              t \in {3, 4}, a \in ExtAsts, st \in {"min", "full"}, b \in {1, 7, 20, 33}}
-ASSUME LET S == SetToSeq(CasesA \cup CasesF \cup CasesB \cup CasesC)
+ASSUME LET S == SetToSeq(CasesA \cup CasesF \cup CasesW \cup CasesB \cup CasesC)
        IN  ndJsonSerialize(IOEnv.VERIF_OUT, [i \in 1..Len(S) |-> [id |-> i] @@ S[i]])
 Init == x = 0
 Next == UNCHANGED x
